@@ -1,4 +1,5 @@
 import CoolerModel.Model.FileModel
+import CoolerModel.Props.C19
 /-!
 # Property C15 — file-level operations preserve content and touch nothing else
 
@@ -3541,5 +3542,35 @@ theorem copy_overwrite_eq {fs : FS} {v : Variant} {sf : String} {sp : Path} {df 
     unfold copyOp afterOpen
     simp only [hflags, Bool.false_eq_true, if_false, getFile_setFile, hne, hne', hg, if_true, Option.isNone_some,
       Bool.or_true, Bool.or_false, decide_false, Bool.and_false]
+
+/-! ### `uri_slash`: the C15 clause as a corollary of `Cooler.C19.uri_slash` (same definition) -/
+
+open Cooler.Strings in
+/-- **uri_slash**: a URI with and without the leading slash of the group path denotes the same
+file and the same path components (hypotheses of `C19.uri_slash`: no `::` inside `f:` nor inside
+`g`; `g` does not already start with `/`).  Every operation of the model takes the parsed pair, so
+`cp`/`mv`/`ln`/`create`/`is_cooler` cannot tell the two spellings apart. -/
+theorem uri_slash (f g : List Char) (hf : hasDC (f ++ [':']) = false) (hg : hasDC g = false)
+    (hh : g.head? ≠ some '/') :
+    parseCoolerUriC (f ++ ':' :: ':' :: '/' :: g) = parseCoolerUriC (f ++ ':' :: ':' :: g) ∧
+    parseCoolerUriC (f ++ ':' :: ':' :: g) = .ok (f, splitSlash ('/' :: g)) := by
+  obtain ⟨h1, h2⟩ := (Cooler.C19.uri_slash f g hf hg).1 hh
+  unfold parseCoolerUriC
+  rw [h2, h1]
+  exact ⟨rfl, rfl⟩
+
+/-- string form: two URI strings whose characters are `f::/g` and `f::g` parse alike -/
+theorem uri_slash_string (s1 s2 : String) (f g : List Char) (h1 : s1.toList = f ++ ':' :: ':' :: '/' :: g)
+    (h2 : s2.toList = f ++ ':' :: ':' :: g)
+    (hf : Cooler.Strings.hasDC (f ++ [':']) = false) (hg : Cooler.Strings.hasDC g = false)
+    (hh : g.head? ≠ some '/') : parseCoolerUri s1 = parseCoolerUri s2 := by
+  unfold parseCoolerUri
+  rw [h1, h2, (uri_slash f g hf hg hh).1]
+
+example : parseCoolerUriC ['f', ':', ':', 'a', '/', 'b'] = .ok (['f'], [['a'], ['b']]) := by rfl
+example : parseCoolerUriC ['f', ':', ':', '/', 'a', '/', 'b'] = parseCoolerUriC ['f', ':', ':', 'a', '/', 'b'] :=
+  (uri_slash ['f'] ['a', '/', 'b'] (by decide) (by decide) (by decide)).1
+example : parseCoolerUriC ['f'] = .ok (['f'], []) ∧ parseCoolerUriC ['a', ':', ':', 'b', ':', ':', 'c'] = .error .value :=
+  ⟨by rfl, by rfl⟩
 
 end Cooler.C15
